@@ -530,8 +530,8 @@ theorem presealMelmint_seal {s0 : State} (hn : (s0.txs.map (·.hash)).Nodup) (en
   · obtain ⟨s1, h1, h⟩ := Outcome.bind_eq_ok h
     obtain ⟨s2, h2, h⟩ := Outcome.bind_eq_ok h
     obtain ⟨s3, h3, h⟩ := Outcome.bind_eq_ok h
-    exact processPegging_seal (processWithdrawals_seal hn env _ _ (processDeposits_seal hn env _ _
-      (processSwaps_seal hn _ _ (createBuiltins_seal hi) h1) h2) h3) h
+    exact processPegging_seal (createBuiltins_seal (processWithdrawals_seal hn env _ _ (processDeposits_seal hn env _ _
+      (processSwaps_seal hn _ _ (createBuiltins_seal hi) h1) h2) h3)) h
 
 /-- TIP-909 changes the fee pool and two pools -/
 theorem applyTip909_seal {s0 st st' : State} (hi : SealInv s0 st) (h : applyTip909 st = .ok st') :
